@@ -283,6 +283,12 @@ def run(ctx):
     cases += [dict(c, history=['refit-pen', 'refit-lam', 'refit-pen', 'refit-data'][k_ % 4], feature_units='plain', constraints=False,
                    n_mode=('mid' if k_ % 2 else 'large'), lam_mode=('big' if k_ % 3 == 0 else 'default'), seed=c['seed'] + 1)
               for k_, c in enumerate(cases[:len(fitgen.PAIRS)])]
+    # in every run: the identity-link models whose PIRLS needs several iterations (expectiles, gamma / identity), with the
+    # response in small units — coefficients far below 1, where any absolute quantity in the stopping rule ends the loop early
+    multi = [c for c in cases if c['cls'] == 'ExpectileGAM' or (c['dist'], c['link']) == ('gamma', 'identity')][:3]
+    cases += [dict(c, forced='small-units', history='none', feature_units='plain', constraints=False, n_mode='mid', lam_mode='default',
+                   weights_mode='none', y_scale=ys, expectile=(tau_ if c['cls'] == 'ExpectileGAM' else None), seed=c['seed'] + 2 + j_)
+              for j_, (ys, tau_) in enumerate([(1e-12, 0.9), (1e-9, 0.1), (1e-12, 0.95)]) for c in multi]
     with mp.get_context('fork').Pool(min(16, len(cases))) as pool:
         results = pool.map(_worker, cases, chunksize=1)
     ops, idx = [], []
